@@ -534,3 +534,73 @@ class Monitor:
     def on_call_failed(self, ctx, state, name, args, exc): pass
     def on_return(self, ctx, state, name, args, result): pass
     def on_end(self, ctx, state): pass
+
+
+class Observer(Monitor):
+    """A nosy client: at a share of the decision points it calls the pure
+    read-only API (hand evaluation, pots, censored views, dealable cards,
+    effective stacks ...).  It asserts nothing -- the point is that the
+    property monitors running beside it must not notice it: behaviour may
+    depend on the history of operations only, never on what was *asked*
+    in between (memoised answers going stale, lazily built structures)."""
+
+    name = 'observer'
+
+    def __init__(self, p=0.15):
+        self.p = p
+
+    def on_begin(self, ctx):
+        self.rng = random.Random((ctx.cfg['seed'] << 4) ^ 0x0b5e)
+        self.active = self.rng.random() < 0.6
+
+    def on_decision(self, ctx, s, avail):
+        if not self.active or self.rng.random() > self.p:
+            return
+        ctx.counters['observer_query_points'] += 1
+        calls = 0
+
+        def ask(f, *a):
+            nonlocal calls
+            calls += 1
+            try:
+                r = f(*a)
+                if r is not None and not isinstance(
+                        r, (int, float, str, bool, tuple, list)) \
+                        and hasattr(r, '__iter__'):
+                    r = list(r)
+                return r
+            except Exception:    # noqa: BLE001  (the observer is no oracle)
+                return None
+        some = self.rng.sample(list(s.player_indices),
+                               min(3, s.player_count))
+        for i in some:      # (hand evaluation is the costly part)
+            ask(s.can_win_now, i)
+            ask(s.get_censored_hole_cards, i)
+            ask(s.get_down_cards, i)
+            ask(s.get_up_cards, i)
+            for t in s.hand_type_indices:
+                ask(s.get_up_hand, i, t)
+                for b in s.board_indices:
+                    ask(s.get_hand, i, b, t)
+            ask(s.get_effective_ante, i)
+            ask(s.get_effective_blind_or_straddle, i)
+            if s.statuses[i]:
+                ask(s.get_effective_stack, i)
+        for b in s.board_indices:
+            ask(s.get_board_cards, b)
+        ask(lambda: list(s.pots))
+        ask(lambda: s.total_pot_amount)
+        ask(lambda: list(s.get_dealable_cards()))
+        ask(lambda: list(s.cards_in_play))
+        ask(lambda: list(s.cards_not_in_play))
+        ask(lambda: list(s.reserved_cards))
+        for name in ('actor_index', 'turn_index', 'showdown_index',
+                     'hole_dealee_index', 'stander_pat_or_discarder_index',
+                     'checking_or_calling_amount',
+                     'effective_bring_in_amount',
+                     'min_completion_betting_or_raising_to_amount',
+                     'pot_completion_betting_or_raising_to_amount',
+                     'max_completion_betting_or_raising_to_amount',
+                     'board_count', 'total_pot_amount'):
+            ask(lambda n=name: getattr(s, n))
+        ctx.counters['observer_queries'] += calls
